@@ -268,11 +268,11 @@ CONTRACTS += [
     Contract(id='K13.name', target='taskchain.config:Config.name', props={'C12': 'decisive', 'C02': 'supporting'},
              inputs={'self': cfg_obj()}, ensures={'eq_spec': 'k13_name'}, ensures_raise={'no_name': 'k13_name_raises'}, canary='k13_canary'),
     Contract(id='K13.fullname', target='taskchain.config:Config.fullname', props={'C12': 'decisive'},
-             inputs={'self': cfg_obj()}, ensures={'eq_spec': 'k13_fullname'}, canary='k13_canary'),
+             inputs={'self': cfg_obj()}, ensures={'eq_spec': 'k13_fullname'}, canary='k13_canary', may_raise=['ValueError']),
     Contract(id='K13.repr_name', target='taskchain.config:Config.repr_name', props={'C12': 'decisive', 'C09': 'supporting'},
-             inputs={'self': cfg_obj()}, ensures={'eq_spec': 'k13_repr_name'}, canary='k13_canary'),
+             inputs={'self': cfg_obj()}, ensures={'eq_spec': 'k13_repr_name'}, canary='k13_canary', may_raise=['ValueError']),
     Contract(id='K13.name_mode_key', target='taskchain.config:Config.get_name_for_persistence', props={'C12': 'decisive'},
-             inputs={'self': cfg_obj()}, ensures={'eq_spec': 'k13_persist'}, canary='k13_canary'),
+             inputs={'self': cfg_obj()}, ensures={'eq_spec': 'k13_persist'}, canary='k13_canary', may_raise=['ValueError']),
     Contract(id='K10.fullname', target='taskchain.task:MetaTask.fullname', props={'C12': 'decisive', 'C08': 'supporting', 'C10': 'supporting'},
              inputs={'cls': Abs(TaskClsIface, 'cls'), 'config': Abs(CfgNs, 'config')},
              ensures={'eq_spec': 'k10_fullname'}, canary='k10_canary'),
